@@ -1489,6 +1489,41 @@ class CopyAnalysis:
         self.censuses.append(cen)
 
 
+    def protocol_census(self, cname: str, label: str, which: str) -> Census:
+        """`copy.deepcopy(x)` / a pickle round trip of a class that customises NOTHING of the copy protocol: CPython's
+        generic protocol (copyreg.__reduce_ex__: a new object of the same class, every slot set to a deep copy /
+        unpickled value of the original's slot; immutable atoms come back as the same or an equal value) gives the row
+        HDeep for every mutable field and HShare for every immutable one, each from its own slot.  Only applies when
+        the class has no base class, declares __slots__ equal to its data fields and defines none of the hooks; a class
+        that defines __deepcopy__ is analysed like any copy method; any other hook fails closed."""
+        info = self.classes[cname]
+        cls = info.node
+        defined = {n.name for n in cls.body if isinstance(n, (ast.FunctionDef, ast.AsyncFunctionDef))}
+        defined |= {t.id for n in cls.body if isinstance(n, ast.Assign) for t in n.targets if isinstance(t, ast.Name)}
+        if which == 'deepcopy' and '__deepcopy__' in defined:
+            return self.method_census(cname, '__deepcopy__', label)
+        hooks = {'__deepcopy__', '__copy__', '__reduce__', '__reduce_ex__', '__getstate__', '__setstate__', '__getnewargs__',
+                 '__getnewargs_ex__', '__new__', '__init_subclass__', '__setattr__', '__getattribute__'}
+        if which == 'pickle':
+            hooks -= {'__deepcopy__', '__copy__'}      # the copy module's hooks: pickle does not look at them
+        if hooks & defined:
+            raise TranslateError(f'{label}: {cname} defines {sorted(hooks & defined)}: the generic copy protocol does not apply')
+        if cls.bases or cls.keywords or cls.decorator_list:
+            raise TranslateError(f'{label}: {cname} has base classes / decorators: the generic copy protocol census does not apply')
+        slots = _slots(cls)
+        if slots is None or sorted(slots) != sorted(info.fields):
+            raise TranslateError(f'{label}: {cname}.__slots__ {slots} are not the data fields {info.fields}')
+        cen = Census(label, info, self)
+        for f in info.fields:
+            kind = kind_of(cname, f, info.ann.get(f))
+            if kind in ('KCtx', 'KId'):
+                raise TranslateError(f'{label}: field {f} of kind {kind} under the generic copy protocol')
+            cen.set(f, 'HShare' if kind == 'KImm' else 'HDeep', f'{which} of self.{f} (generic copy protocol)', [f], [(f, 'ident')])
+        cen.builder = 'protocol'
+        self.censuses.append(cen)
+        return cen
+
+
 # ---------------------------------------------------------------------------------------------- Keyvalues + / += / extend
 def kv_receivers(tree: ast.Module) -> dict:
     cls = _find_class(tree, 'Keyvalues')
@@ -1652,6 +1687,8 @@ def translate() -> tuple[str, dict]:
     an.method_census('EntityFixup', '__deepcopy__', 'EntityFixup_deepcopy')
     kan = CopyAnalysis(ktree, {'Keyvalues': kv_info})
     kan.method_census('Keyvalues')
+    kan.protocol_census('Keyvalues', 'Keyvalues_deepcopy', 'deepcopy')
+    kan.protocol_census('Keyvalues', 'Keyvalues_pickle', 'pickle')
     censuses = an.censuses + kan.censuses
     kv = kv_receivers(ktree)
     labels = [c.label for c in censuses]
